@@ -6,7 +6,7 @@
    is_von_name = the local function of Person._parse_string;  jr_part, first_part, token_case,
    spec_is_von: Spec/Names.v. *)
 From Pybtex Require Import Base.Prelude Base.PyChar Base.PyStr Model.BibtexStr Model.Names Spec.Names
-  Proofs.NamesSplit Proofs.Names Proofs.NamesCase Proofs.NamesAtomic Proofs.NamesOk Proofs.NamesUnique Proofs.NamesLevel0 Proofs.NamesTok.
+  Proofs.NamesSplit Proofs.Names Proofs.NamesCase Proofs.NamesAtomic Proofs.NamesOk Proofs.NamesUnique Proofs.NamesLevel0 Proofs.NamesTok Proofs.NamesComma.
 
 (* parsing never raises a foreign exception and never diverges, for EVERY string and every
    explicit part argument (the only error left is BibTeXError 'too many nested braces') *)
@@ -134,6 +134,30 @@ Theorem tokenizer_spec_all : forall s, split_tex_space s = Ok (map strip (spec_t
 Proof. exact tokenizer_spec_all_pf. Qed.
 Print Assumptions tokenizer_spec_all.
 
+(* split_tex_string(s, ',') IS the list of the pieces of s between its brace-level-0 commas (Spec/Names.v
+   spec_comma_pieces: every level-0 comma ends a piece, also an empty one, and nothing else does), each
+   stripped -- for every non-empty string (the empty string has no parts at all) *)
+Theorem comma_split_spec : forall s, s <> [] -> split_tex_comma s = Ok (map strip (spec_comma_pieces s)).
+Proof. exact comma_split_spec_pf. Qed.
+Print Assumptions comma_split_spec.
+
+(* the NAME FORM is decided by the number n of brace-level-0 commas of the stripped string (empty parts count):
+   0: First von Last;  1: von Last, First;  2: von Last, Jr, First;  more: reported, parts 3.. re-joined.
+   [toks x] = the specification's tokens of x, stripped (= split_tex_string(x), tokenizer_spec_all) *)
+Theorem name_form_by_commas : forall s p rep, strip s <> [] -> person_of_string s = Ok (p, rep) ->
+  let ps := map strip (spec_comma_pieces (strip s)) in
+  let n := level0_commas (strip s) in
+  let toks := fun x => map strip (spec_tokens x) in
+  (n = 0 -> toks (strip s) = p_first p ++ p_middle p ++ p_prelast p ++ p_last p /\ p_lineage p = [] /\ rep = false) /\
+  (n = 1 -> toks (nth 0 ps []) = p_prelast p ++ p_last p /\ toks (nth 1 ps []) = p_first p ++ p_middle p /\
+            p_lineage p = [] /\ rep = false) /\
+  (n = 2 -> toks (nth 0 ps []) = p_prelast p ++ p_last p /\ toks (nth 1 ps []) = p_lineage p /\
+            toks (nth 2 ps []) = p_first p ++ p_middle p /\ rep = false) /\
+  (3 <= n -> toks (nth 0 ps []) = p_prelast p ++ p_last p /\ toks (nth 1 ps []) = p_lineage p /\
+             toks (join [c_space] (skipn 2 ps)) = p_first p ++ p_middle p /\ rep = true).
+Proof. exact name_form_by_commas_pf. Qed.
+Print Assumptions name_form_by_commas.
+
 (* hence the name parts are the specification's tokens, form by form *)
 Theorem person_tokens_spec : forall s parts p rep, closed s ->
   split_tex_comma (strip s) = Ok parts -> person_of_string s = Ok (p, rep) ->
@@ -206,3 +230,9 @@ Proof. vm_compute. auto. Qed.
 (* a never-closed group swallows the rest of the string (after the fix bae0311); only strip() then differs *)
 Example ex_tokenizer_unclosed : split_tex_space (s2l "x {a{b c ") = Ok [s2l "x"; s2l "{a{b c"] /\ spec_tokens (s2l "x {a{b c ") = [s2l "x"; s2l "{a{b c "].
 Proof. vm_compute. auto. Qed.
+(* empty parts count: "Smith," has one level-0 comma, so it is "von Last, First" with an empty First part *)
+Example ex_comma_forms : spec_comma_pieces (s2l "Smith,") = [s2l "Smith"; []] /\ level0_commas (s2l "Smith,") = 1 /\
+  person_of_string (s2l "Smith,") = Ok (mkPerson [] [] [] [s2l "Smith"] [], false) /\
+  person_of_string (s2l ", John") = Ok (mkPerson [s2l "John"] [] [] [] [], false) /\
+  spec_comma_pieces (s2l "a {b, c}, d") = [s2l "a {b, c}"; s2l " d"].
+Proof. vm_compute. repeat split; reflexivity. Qed.
